@@ -35,3 +35,78 @@ Proof.
   unfold exec. intros n p f args h o H Hne m Hle.
   destruct (init_state p f args h); [eapply run_mono; eauto | exact H].
 Qed.
+
+(* ---------------------------------------------------------------- phis are parallel copies *)
+
+Lemma assign_all_other : forall l e r, ~ In r (map fst l) -> PM.find r (assign_all e l) = PM.find r e.
+Proof.
+  unfold assign_all. induction l as [|[d v] t IH]; intros e r H; simpl; [reflexivity|].
+  simpl in H. rewrite IH by tauto. apply PM.gso. intros E. apply H. left. symmetry. exact E.
+Qed.
+
+Lemma assign_all_in : forall l e d v, NoDup (map fst l) -> In (d, v) l -> PM.find d (assign_all e l) = Some v.
+Proof.
+  induction l as [|[d0 v0] t IH]; intros e d v ND HI; simpl in *; [contradiction|].
+  inversion ND as [|? ? Hn Ht]; subst. destruct HI as [E|HI].
+  - inversion E; subst. change (PM.find d (assign_all (PM.add d v e) t) = Some v).
+    rewrite assign_all_other by exact Hn. apply PM.gss.
+  - change (PM.find d (assign_all (PM.add d0 v0 e) t) = Some v). apply IH; assumption.
+Qed.
+
+Lemma eval_phis_spec : forall e k ps l, eval_phis e k ps = inl l ->
+  map fst l = map fst ps /\
+  forall d es, In (d, es) ps -> exists o v, nthN es k = Some o /\ eval_operand e o = inl v /\ In (d, v) l.
+Proof.
+  intros e k ps. induction ps as [|[d0 es0] t IH]; intros l H; simpl in H.
+  - inversion H; subst. split; [reflexivity | intros d es []].
+  - destruct (nthN es0 k) as [o|] eqn:Hn; [|discriminate].
+    destruct (eval_operand e o) as [v|] eqn:Ho; [|discriminate].
+    destruct (eval_phis e k t) as [l'|] eqn:Hl; [|discriminate].
+    inversion H; subst. destruct (IH l' eq_refl) as [Hm Hs]. split; [simpl; rewrite Hm; reflexivity|].
+    intros d es [E|HI].
+    + inversion E; subst. exists o, v. simpl. auto.
+    + destruct (Hs d es HI) as [o' [v' [A [B C]]]]. exists o', v'. simpl. auto.
+Qed.
+
+(* Control transfer along an edge: every phi of the target block receives the value its operand for
+   that edge has in the environment BEFORE the transfer -- also when the operand is another phi of the
+   same block -- and no other register changes. *)
+Theorem phi_parallel_thm : forall fn fr succ fr',
+  goto_succ fn fr succ = inl fr' ->
+  exists tb k ps rest,
+    get_block fn (f_blk fr') = Some tb /\ split_phis (b_code tb) = (ps, rest) /\ f_code fr' = rest /\
+    index_of (f_blk fr) (b_preds tb) 0 = Some k /\
+    (NoDup (map fst ps) ->
+       (forall d es, In (d, es) ps ->
+          exists o v, nthN es k = Some o /\ eval_operand (f_env fr) o = inl v /\ PM.find d (f_env fr') = Some v) /\
+       (forall r, ~ In r (map fst ps) -> PM.find r (f_env fr') = PM.find r (f_env fr))).
+Proof.
+  intros fn fr succ fr' H. unfold goto_succ in H.
+  destruct (get_block fn (f_blk fr)) as [cur|]; [|discriminate].
+  destruct (nthN (b_succs cur) succ) as [tgt|]; [|discriminate].
+  destruct (get_block fn tgt) as [tb|] eqn:Ht; [|discriminate].
+  destruct (index_of (f_blk fr) (b_preds tb) 0) as [k|] eqn:Hk; [|discriminate].
+  destruct (split_phis (b_code tb)) as [ps rest] eqn:Hs.
+  destruct (eval_phis (f_env fr) k ps) as [l|] eqn:Hl; [|discriminate].
+  inversion H; subst fr'; simpl. exists tb, k, ps, rest.
+  split; [exact Ht|]. split; [exact Hs|]. split; [reflexivity|]. split; [exact Hk|].
+  intros ND. split.
+  - intros d es HI. destruct (eval_phis_spec _ _ _ _ Hl) as [Hm Hsp].
+    destruct (Hsp d es HI) as [o [v [A [B C]]]]. exists o, v. repeat split; auto.
+    apply (assign_all_in l (f_env fr) d v); [exact (eq_ind_r (@NoDup positive) ND Hm) | exact C].
+  - intros r Hr. destruct (eval_phis_spec _ _ _ _ Hl) as [Hm _].
+    apply assign_all_other. intros X. apply Hr. rewrite <- Hm. exact X.
+Qed.
+
+(* ---------------------------------------------------------------- the step counter is faithful *)
+
+Lemma run_steps_fst : forall n p st k, fst (run_steps n p st k) = run n p st.
+Proof.
+  induction n as [|n IH]; intros p st k; simpl; [reflexivity|].
+  destruct (step p st); [apply IH | reflexivity].
+Qed.
+
+Lemma exec_steps_fst : forall n p f args h, fst (exec_steps n p f args h) = exec n p f args h.
+Proof.
+  intros. unfold exec_steps, exec. destruct (init_state p f args h); [apply run_steps_fst | reflexivity].
+Qed.
